@@ -18,7 +18,9 @@ RULE = ("E1: left documents {a: &N v, [b: *N], [c: [*N, 7]], [l2: &N2 5, "
         "[r2: &M2 6, r3: *M2]} for every N, M in {x, y, x_1}, v, w in "
         "{1, 2, '', false, 's', 2.5} (falsy values keep their anchor; no two pool values are equal across types), "
         "every alias placement, optional second anchors from the same pool "
-        "(so rename targets can collide) x the four anchor policies x 3 "
+        "(so rename targets can collide), each side optionally wrapped whole "
+        "in an anchored hash that is aliased once more (so every scalar "
+        "anchor sits inside an anchored collection) x the four anchor policies x 3 "
         "merge-policy mixes (quick: seed-offset stride). Oracle (alias-cell "
         "model): stop refuses iff a shared name has unequal values; left / "
         "right make every position that aliased the name read that side's "
@@ -63,20 +65,38 @@ def right_doc(name, value, al_key, al_seq, extra):
     return ["M", items, None]
 
 
+def wrapped(spec, key, anchor):
+    """{key: &anchor {...the document...}, key2: *anchor}: every scalar
+    anchor of the document now sits inside an anchored, aliased hash."""
+    return ["M", [[key, ["M", spec[1], anchor]], [key + "2", ["A", anchor]]],
+            None]
+
+
 def all_cases():
     for ln, rn in itertools.product(NAMES, NAMES):
         for lv, rv in itertools.product(VALUES, VALUES):
             for lf, rf in itertools.product(range(4), range(4)):
                 for lx in [None] + [n for n in NAMES if n != ln]:
                     for rx in [None] + [n for n in NAMES if n != rn]:
-                        yield (ln, lv, lf, lx, rn, rv, rf, rx)
+                        yield (ln, lv, lf, lx, rn, rv, rf, rx, 0)
+                        if (lx is None or lx == NAMES[0]) and \
+                                (rx is None or rx == NAMES[-1]):
+                            # 1: left wrapped, 2: right wrapped, 3: both
+                            for wrap in (1, 2, 3):
+                                yield (ln, lv, lf, lx, rn, rv, rf, rx, wrap)
 
 
 def read_positions(doc):
     """{key or (key, idx): (value canon, anchor name, object id)}"""
     out = {}
     for k, v in doc.items():
-        if is_seq(v):
+        if str(k) in ("lw", "rw"):
+            out.update(read_positions(v))       # the wrapping hash
+        elif str(k) in ("lw2", "rw2"):
+            out["@" + str(k)] = (["alias-of-wrapper", canon(v) == canon(
+                doc[str(k)[:-1]]) if str(k)[:-1] in doc else False], None,
+                id(v))
+        elif is_seq(v):
             for i, e in enumerate(v):
                 out[(str(k), i)] = (cscalar(e), anchor_of(e), id(e))
         else:
@@ -88,9 +108,15 @@ def check_case(case_t, policy, mix, res):
     from yamlpath.merger import Merger, MergerConfig
     from yamlpath.merger.exceptions import MergeException
     from yamlpath.common import Parsers
-    ln, lv, lf, lx, rn, rv, rf, rx = case_t
-    ltext = gdocs.emit(left_doc(ln, lv, lf & 1, lf & 2, lx))
-    rtext = gdocs.emit(right_doc(rn, rv, rf & 1, rf & 2, rx))
+    ln, lv, lf, lx, rn, rv, rf, rx, wrap = case_t
+    lspec = left_doc(ln, lv, lf & 1, lf & 2, lx)
+    rspec = right_doc(rn, rv, rf & 1, rf & 2, rx)
+    if wrap & 1:
+        lspec = wrapped(lspec, "lw", "lwrap")
+    if wrap & 2:
+        rspec = wrapped(rspec, "rw", "rwrap")
+    ltext = gdocs.emit(lspec)
+    rtext = gdocs.emit(rspec)
     ldoc, ok1 = gdocs.load(ltext)
     rdoc, ok2 = gdocs.load(rtext)
     if not (ok1 and ok2):
@@ -127,7 +153,8 @@ def check_case(case_t, policy, mix, res):
     if policy == "stop" and conflicts:
         if outcome != "refused":
             res.fail({"clause": "stop-refuses-a-conflict", "falsy-left":
-                      str(any(not ldefs[n] for n in conflicts))}, case,
+                      str(any(not ldefs[n] for n in conflicts)),
+                      "wrapped": wrap}, case,
                      "merged although %r differ" % conflicts)
         res.label("stop:refused")
         _nontrivial(res, case, case_t, conflicts)
@@ -183,8 +210,19 @@ def check_case(case_t, policy, mix, res):
         v = ldefs[rx] if (rx in conflicts and policy == "left") else 6
         exp["r2"] = v
         exp["r3"] = v
+    for wkey, bit in (("@lw2", 1), ("@rw2", 2)):
+        if wrap & bit:
+            # the alias of the wrapping hash still shows the wrapper's content
+            exp[wkey] = None
     bad = []
     for key, val in exp.items():
+        if isinstance(key, str) and key.startswith("@"):
+            if key not in got:
+                bad.append("%r missing" % (key,))
+            elif got[key][0] != ["alias-of-wrapper", True]:
+                bad.append("%s no longer equals the hash it aliases"
+                           % key[1:])
+            continue
         if key not in got:
             bad.append("%r missing" % (key,))
         elif got[key][0] != cscalar(val):
@@ -194,7 +232,7 @@ def check_case(case_t, policy, mix, res):
             map(str, set(got) - set(exp))))
     if bad:
         res.fail({"clause": "aliases-read-the-policy-value", "policy": policy,
-                  "kind": kind}, case, "; ".join(bad))
+                  "kind": kind, "wrapped": wrap}, case, "; ".join(bad))
         return
     # rename: the right-hand definition and all its aliases carry ONE new
     # name that is unused in either input
@@ -231,7 +269,9 @@ def check_case(case_t, policy, mix, res):
 
 
 def _nontrivial(res, case, case_t, conflicts):
-    ln, lv, lf, lx, rn, rv, rf, rx = case_t
+    ln, lv, lf, lx, rn, rv, rf, rx, wrap = case_t
+    if wrap:
+        res.label("wrapped-in-anchored-hash")
     if conflicts and ((ln in conflicts and lf and rf) or lx in conflicts
                       or rx in conflicts):
         res.nontrivial()
@@ -301,6 +341,9 @@ def replay(case):
 
     def parse(text, defkey, k1, k2, x2):
         doc, _ = gdocs.load(text)
+        for wk in ("lw", "rw"):
+            if wk in doc:
+                doc = doc[wk]
         name = anchor_of(doc[defkey])
         val = doc[defkey]
         val = (bool(val) if cscalar(val)[0] == "b" else
@@ -310,6 +353,7 @@ def replay(case):
         return name, val, flags, extra
     ln, lv, lf, lx = parse(l, "a", "b", "c", "l2")
     rn, rv, rf, rx = parse(r, "d", "e", "f", "r2")
-    check_case((ln, lv, lf, lx, rn, rv, rf, rx), case["anchors"],
+    wrap = (1 if "lw:" in l else 0) | (2 if "rw:" in r else 0)
+    check_case((ln, lv, lf, lx, rn, rv, rf, rx, wrap), case["anchors"],
                tuple(case["mix"]), res)
     return [r_ for _, recs in res.failures.values() for r_ in recs]
